@@ -1,11 +1,14 @@
 (* Model of tag resolution (C19) = the translated guard chain (Gen/JsonResolve.v, regenerated from the source on every
    run) + the one step after it that is still krrood's own code: a class that derives from SubclassJSONSerializer
    but does not override _from_json inherits the base body ([base_from_json_body], also translated; since dd15a30 it
-   raises ClassNotDeserializableError).
+   raises ClassNotDeserializableError),
+   + [enclosing], the HAND-WRITTEN model of SubclassJSONSerializer._resolve_enclosing_class (since 70c605d; a loop with
+   try/continue that the translator does not cover; source-pinned in pin set `json`): the chain calls it through its
+   Section variable [resolve_enclosing_class].
 
    Oracles are Section variables ranging over every behaviour documented for them:
      import_module : module | ModuleNotFoundError | ValueError (only for "") | TypeError (only for a relative name)
-     getattr_      : object | AttributeError
+     getattr_      : object | AttributeError                  (on a module or on a class)
      issubclass_ser: bool   | TypeError (only when the first argument is not a class)          *)
 From Coq Require Import List ZArith Bool.
 From Krrood Require Import Base.Sx Json.JsonVal Json.ResolveSpec Gen.JsonResolve.
@@ -15,13 +18,42 @@ Open Scope Z_scope.
 Section Resolve.
   Variables (pymodule pyclass pydeser : Type).
   Variable import_module : str -> M pymodule.
-  Variable getattr_ : pymodule -> str -> M pyclass.
+  Variable getattr_ : owner pymodule pyclass -> str -> M pyclass.
   Variable is_type : pyclass -> bool.
   Variable issubclass_ser : pyclass -> M bool.
   Variable get_deserializer : pyclass -> option pydeser.
   Variable implements_from_json : pyclass -> bool.   (* the class (or a base below SubclassJSONSerializer) defines _from_json *)
 
-  Definition chain := from_json_chain pymodule pyclass pydeser import_module getattr_ is_type issubclass_ser get_deserializer.
+  (* _resolve_enclosing_class(qualified_name), line by line:
+       names = qualified_name.split(".")
+       for number_of_module_names in range(len(names) - 1, 0, -1):
+           try: owner = importlib.import_module(".".join(names[:number_of_module_names]))
+           except ModuleNotFoundError: continue                       -- any other exception propagates
+           for name in names[number_of_module_names:]:
+               owner = getattr(owner, name, None)                      -- AttributeError -> None; others propagate
+               if not isinstance(owner, type): return None
+           return owner
+       return None *)
+  Fixpoint walk_classes (o : owner pymodule pyclass) (names : list str) : M (option (owner pymodule pyclass)) :=
+    match names with
+    | [] => Ok (Some o)
+    | n :: r => match getattr_ o n with
+                | Ok c => if is_type c then walk_classes (OCls c) r else Ok None
+                | Exn e => if pyexn_isa e AttributeError then Ok None else Exn e
+                end
+    end.
+  Fixpoint try_prefixes (names : list str) (k : nat) : M (option (owner pymodule pyclass)) :=
+    match k with
+    | O => Ok None
+    | S k' => match import_module (join_dots (firstn k names)) with
+              | Ok m => walk_classes (OMod m) (skipn k names)
+              | Exn e => if pyexn_isa e ModuleNotFoundError then try_prefixes names k' else Exn e
+              end
+    end.
+  Definition enclosing (qualified_name : str) : M (option (owner pymodule pyclass)) :=
+    let names := split_dots qualified_name in try_prefixes names (length names - 1).
+
+  Definition chain := from_json_chain pymodule pyclass pydeser import_module enclosing getattr_ is_type issubclass_ser get_deserializer.
 
   (* from_json: the chain, then target_cls._from_json(data) *)
   Definition resolve (data : jv) : outcome jerr (fj_action pyclass pydeser) :=
@@ -55,7 +87,7 @@ Section Resolve.
   Definition importer_documented : Prop :=
     forall s e, import_module s = Exn e ->
       e = ModuleNotFoundError \/ (e = ValueError /\ s = []) \/ (e = TypeError /\ str_startswith s [DOT] = true).
-  Definition getattr_documented : Prop := forall m n e, getattr_ m n = Exn e -> e = AttributeError.
+  Definition getattr_documented : Prop := forall o n e, getattr_ o n = Exn e -> e = AttributeError.
   Definition issubclass_documented : Prop :=
     (forall c e, issubclass_ser c = Exn e -> e = TypeError) /\
     (forall c, is_type c = true -> exists b, issubclass_ser c = Ok b).
